@@ -62,8 +62,8 @@ template<class X> void terminals(X&& x, std::string const& path, bool all_mutabl
 }
 
 // ---- view-forming steps (applicability decided by rank / constness, never by blind detection) ---------------------
-enum StepId { S_INDEX, S_SLICED, S_STRIDED, S_DROPPED, S_TAKED, S_ROTATED, S_UNROTATED, S_TRANSPOSED, S_REVERSED, S_DIAGONAL, S_PARTITIONED, S_FLATTED, S_PAREN, S_CALLRANGE, S_DEREF_BEGIN, S_NSTEPS };
-static char const* STEPN[] = {"[0]", "sliced(0,1)", "strided(1)", "dropped(0)", "taked(1)", "rotated()", "unrotated()", "transposed()", "reversed()", "diagonal()", "partitioned(1)", "flatted()", "()", "({0,1})", "*begin()"};
+enum StepId { S_INDEX, S_SLICED, S_STRIDED, S_DROPPED, S_TAKED, S_ROTATED, S_UNROTATED, S_TRANSPOSED, S_REVERSED, S_DIAGONAL, S_PARTITIONED, S_FLATTED, S_PAREN, S_CALLRANGE, S_DEREF_BEGIN, S_ADDR_DEREF, S_NSTEPS };
+static char const* STEPN[] = {"[0]", "sliced(0,1)", "strided(1)", "dropped(0)", "taked(1)", "rotated()", "unrotated()", "transposed()", "reversed()", "diagonal()", "partitioned(1)", "flatted()", "()", "({0,1})", "*begin()", "*&"};
 
 template<int Depth, class X> void explore(X&& x, std::string const& path, bool all_mutable);
 
@@ -86,6 +86,7 @@ template<int S, int Depth, class X> void try_step(X&& x, std::string const& path
 	else if constexpr(S == S_PAREN) { go(std::forward<X>(x)()); }
 	else if constexpr(S == S_CALLRANGE) { go(std::forward<X>(x)(multi::irange{0, 1})); }
 	else if constexpr(S == S_DEREF_BEGIN) { if constexpr(R > 1) go(*std::forward<X>(x).begin()); }
+	else if constexpr(S == S_ADDR_DEREF) { if constexpr(!is_owning<X>) go(*(&std::forward<X>(x))); }  // the address of a view is a pointer-like object; what it points to is a view again
 }
 template<int Depth, class X, int... S> void all_steps(X&& x, std::string const& path, bool all_mutable, std::integer_sequence<int, S...>) { (try_step<S, Depth>(x, path, all_mutable), ...); (void)x; }
 template<int Depth, class X> void explore(X&& x, std::string const& path, bool all_mutable) {
@@ -133,12 +134,25 @@ int main(int argc, char** argv) {
 			using Cur = decltype(std::declval<Arr&>().home()); using CCur = decltype(std::declval<Arr const&>().home());
 			auto fact = [&](bool bad, char const* what) { count("conversion_facts"); if(bad) violation(std::string("C16:const-to-mutable-conversion:") + what, std::string("a read-only ") + what + " converts to / constructs its mutable counterpart", false); };
 			if constexpr(!std::is_same_v<It, CIt>) { fact(std::is_convertible_v<CIt, It>, "iterator(implicit)"); fact(std::is_constructible_v<It, CIt>, "iterator(explicit)"); fact(std::is_assignable_v<It&, CIt>, "iterator(assignment)"); if(!std::is_convertible_v<It, CIt>) info("C16:iterator-to-const_iterator-not-convertible", "iterator does not convert to const_iterator"); }
+			fact(std::is_constructible_v<std::decay_t<Sub>, CIt, CIt>, "view-from-const_iterator-pair"); { using CSIt = typename std::decay_t<CSub>::const_iterator; fact(std::is_constructible_v<std::decay_t<Sub>, CSIt, CSIt>, "view-from-const-view-iterator-pair"); }
 			if constexpr(!std::is_same_v<Sub, CSub>) { fact(std::is_convertible_v<CSub, Sub>, "view(implicit)"); fact(std::is_constructible_v<Sub, CSub>, "view(explicit)"); fact(std::is_constructible_v<Sub, CSub const&>, "view(explicit,lvalue)"); }
 			if constexpr(!std::is_same_v<El, CEl>) { fact(std::is_convertible_v<CEl, El>, "elements-range(implicit)"); fact(std::is_constructible_v<El, CEl>, "elements-range(explicit)"); }
 			if constexpr(!std::is_same_v<EIt, CEIt>) { fact(std::is_convertible_v<CEIt, EIt>, "elements-iterator(implicit)"); fact(std::is_constructible_v<EIt, CEIt>, "elements-iterator(explicit)"); }
 			if constexpr(!std::is_same_v<Cur, CCur>) { fact(std::is_convertible_v<CCur, Cur>, "cursor(implicit)"); fact(std::is_constructible_v<Cur, CCur>, "cursor(explicit)"); }
 			using RIt = typename multi::array_ref<int, RD>::iterator; using RCIt = typename multi::array_ref<int, RD>::const_iterator; if constexpr(!std::is_same_v<RIt, RCIt>) { fact(std::is_convertible_v<RCIt, RIt>, "array_ref-iterator(implicit)"); fact(std::is_constructible_v<RIt, RCIt>, "array_ref-iterator(explicit)"); }
 			using SIt = typename std::decay_t<Sub>::iterator; using SCIt = typename std::decay_t<Sub>::const_iterator; if constexpr(!std::is_same_v<SIt, SCIt>) { fact(std::is_convertible_v<SCIt, SIt>, "view-iterator(implicit)"); fact(std::is_constructible_v<SIt, SCIt>, "view-iterator(explicit)"); }
+		}
+		{	// a lazily transformed view whose functor yields a reference is writable; the same view seen through a const-qualified reference is not (its read-only pointer / reference types are derived from the functor's)
+			struct S2 { int a; int b; }; multi::array<S2, RD> AS(exts, S2{1, 2}); auto&& tv = AS.element_transformed(&S2::a); auto const& ctv = tv;
+			auto ro = [&](bool writable, char const* what) { count("transformed_view_facts"); if(writable) violation(std::string("C16:writable-through-const:transformed-view:") + what, std::string("a const-qualified element_transformed(&S::member) view yields a modifiable reference through ") + what, false); };
+			ro(std::is_assignable_v<decltype(down(ctv)), int>, "[0]..."); ro(std::is_assignable_v<decltype(call0(ctv, std::make_index_sequence<std::size_t(RD)>{})), int>, "(0,...)");
+			ro(std::is_assignable_v<decltype(ctv.elements()[0]), int>, "elements()[0]"); ro(std::is_assignable_v<decltype(*ctv.elements().begin()), int>, "*elements().begin()");
+			ro(std::is_assignable_v<decltype(curdown<RD>(ctv.home())), int>, "home()[0]...");
+#if C16_D >= 2
+			ro(std::is_assignable_v<decltype(down(*ctv.cbegin())), int>, "*cbegin()"); ro(std::is_assignable_v<decltype(down(ctv.rotated())), int>, "rotated()[0]..."); ro(std::is_assignable_v<decltype(down(ctv[0])), int>, "[0] then [0]...");
+#endif
+			if(!std::is_assignable_v<decltype(down(tv)), int>) violation("C16:mutable-path-not-writable:transformed-view", "element_transformed(&S::member) of a mutable array is not writable", false);
+			else { down(tv) = 41; if(AS.elements()[0].a != 41) violation("C16:write-does-not-land:transformed-view", "a write through element_transformed(&S::member) did not land in the member", false); }
 		}
 		{	// assignment to a view / array_ref assigns elements: it never rebinds or resizes the left-hand side
 			std::vector<int> b1(std::size_t(n), 1), b2(std::size_t(n), 2); for(L i = 0; i < n; ++i) b2[std::size_t(i)] = int(100 + i);
